@@ -23,7 +23,7 @@ HB_CLIENTS = [
     # ("hb-cow", "cow", False, 2, 400, 10000),
     # ("hb-rcu", "rcu", True, 2, 400, 10000),
     ("hb-trigger", "trigger", False, 2, 400, 10000),
-    # ("hb-dd", "dd", False, 2, 400, 10000),
+    ("hb-dd", "dd", False, 2, 400, 10000),
     ("hb-soh", "soh", True, 2, 400, 10000),
     # ("hb-dobj", "dobj", True, 2, 400, 10000),
 ]
